@@ -159,6 +159,7 @@ Proof.
     eapply via_trans; eapply via_lput; eauto.
   - (* AddData *)
     destruct (live_hole s h) eqn:L; simpl in Ho; [|discriminate]. split; [apply live_hole_In; exact L|].
+    destruct (Nat.ltb name 100); [discriminate|].
     destruct (has_key name (keys_of s h)); [inversion Ho; subst; apply via_refl; reflexivity|].
     destruct depth as [dv|];
       destruct (match pg_by_name s h pgname with
@@ -189,6 +190,7 @@ Proof.
     destruct (fresh s pgid); [|discriminate]. apply soft_or_hard_out in Ho. eapply via_new_pg. exact Ho.
   - (* SetValues *)
     destruct (live_hole s h) eqn:L; simpl in Ho; [|discriminate]. split; [apply live_hole_In; exact L|].
+    destruct (owns s h d); simpl in Ho; [|discriminate].
     destruct (find_rec d (recs s)) as [rd|]; [|discriminate].
     match type of Ho with outcome (match ?c with _ => _ end) = _ => destruct c as [[n|]|]; try discriminate end.
     + destruct (Nat.ltb n (length vals)); [inversion Ho; subst; apply via_refl; reflexivity|].
@@ -196,12 +198,15 @@ Proof.
     + apply soft_or_hard_out in Ho. eapply via_lput; [exact Ho | reflexivity].
   - (* Rename *)
     destruct (live_hole s h) eqn:L; simpl in Ho; [|discriminate]. split; [apply live_hole_In; exact L|].
+    destruct (negb (owns s h d) || Nat.ltb newname 100); [discriminate|].
     destruct (find_rec d (recs s)); [|discriminate]. inversion Ho; subst. apply via_refl; reflexivity.
   - (* RemoveData *)
     destruct (live_hole s h) eqn:L; simpl in Ho; [|discriminate]. split; [apply live_hole_In; exact L|].
+    destruct (owns s h d); simpl in Ho; [|discriminate].
     destruct (rm_data s h d) as [s1|e] eqn:E; [|discriminate]. inversion Ho; subst. eapply via_rm_data. exact E.
   - (* RemovePG *)
     destruct (live_hole s h) eqn:L; simpl in Ho; [|discriminate]. split; [apply live_hole_In; exact L|].
+    destruct (memb pg (pgs_of s h)); simpl in Ho; [|discriminate].
     apply soft_or_hard_out in Ho. eapply via_rm_pg. exact Ho.
 Qed.
 
@@ -635,6 +640,7 @@ Proof.
     unfold uniq. rewrite (lput_recs _ _ _ Ho), (lput_recs _ _ _ E). exact U.
   - (* AddData *)
     destruct (live_hole s h); simpl in Ho; [|discriminate].
+    destruct (Nat.ltb name 100); [discriminate|].
     destruct (has_key name (keys_of s h)); [inversion Ho; subst; exact U|].
     destruct depth as [dv|];
       destruct (match pg_by_name s h pgname with
@@ -680,6 +686,7 @@ Proof.
     unfold uniq. rewrite (ids_new_pg _ _ _ _ _ Ho). apply NoDup_snoc; [exact U | apply fresh_not_in; exact F].
   - (* SetValues *)
     destruct (live_hole s h); simpl in Ho; [|discriminate].
+    destruct (owns s h d); simpl in Ho; [|discriminate].
     destruct (find_rec d (recs s)) as [rd|]; [|discriminate].
     match type of Ho with outcome (match ?c with _ => _ end) = _ => destruct c as [[n|]|]; try discriminate end.
     + destruct (Nat.ltb n (length vals)); [inversion Ho; subst; exact U|].
@@ -687,13 +694,16 @@ Proof.
     + apply soft_or_hard_out in Ho. unfold uniq. rewrite (lput_recs _ _ _ Ho). exact U.
   - (* Rename *)
     destruct (live_hole s h); simpl in Ho; [|discriminate].
+    destruct (negb (owns s h d) || Nat.ltb newname 100); [discriminate|].
     destruct (find_rec d (recs s)); [|discriminate]. inversion Ho; subst.
     unfold uniq. simpl. rewrite ids_upd_rec by (intros; apply set_name_id). exact U.
   - (* RemoveData *)
     destruct (live_hole s h); simpl in Ho; [|discriminate].
+    destruct (owns s h d); simpl in Ho; [|discriminate].
     destruct (rm_data s h d) as [s1|e] eqn:E; [|discriminate]. inversion Ho; subst. eapply uniq_rm_data; eassumption.
   - (* RemovePG *)
     destruct (live_hole s h); simpl in Ho; [|discriminate].
+    destruct (memb pg (pgs_of s h)); simpl in Ho; [|discriminate].
     apply soft_or_hard_out in Ho. eapply uniq_rm_pg; eassumption.
   - (* RemoveHole *)
     destruct (live_hole s h); simpl in Ho; [|discriminate].
